@@ -115,7 +115,20 @@ def case_strategy(draw):
         validator["exc"] = draw(st.sampled_from(VALIDATOR_EXC))
         validator["msg"] = draw(st.sampled_from(["denied!", "", "x" * 50, "ünï"]))
     pipe = draw(st.lists(pipeline_item, max_size=3))
-    return {"first": first, "validator": validator, "pipeline": pipe, "keep_open": draw(st.integers(0, 2)) == 0}
+    return {"first": first, "validator": validator, "pipeline": pipe, "keep_open": draw(st.integers(0, 2)) == 0,
+            "logwire": draw(st.integers(0, 2)) == 0}
+
+
+@st.composite
+def stalled_case_strategy(draw):
+    """(COMMTIMEOUT shards) a first message of any kind of which only a proper prefix arrives, from a peer that then stays connected
+    and silent: the daemon's own timeout ends the wait, and the peer - which is still there - must be told and dropped"""
+    case = draw(case_strategy())
+    if draw(st.integers(0, 3)) > 0:
+        case["first"]["mal"] = draw(st.sampled_from([None, None, None, "undecodable", "compressed-flag", "dlen+", "alen+"]))
+        case["stall_after"] = draw(st.one_of(st.integers(1, 45), st.integers(1, 400)))
+        case["pipeline"] = []
+    return case
 
 
 # ------------------------------------------------------------------------------------------------
@@ -193,6 +206,9 @@ KNOWN_OBJECTS = ("t", "sess", "Pyro.Daemon")
 _live = {}
 
 
+STALL_TIMEOUT = 0.25      # COMMTIMEOUT of the "-timeout" variants (a stimulus: the daemon's own clock ends the wait, nothing is judged by ours)
+
+
 def _setup(variant):
     from vlib import live
     if _live.get("variant") != variant:
@@ -202,10 +218,13 @@ def _setup(variant):
     live.quiet_logs()
     threading.excepthook = lambda a: None
     Target, Sess, LDO = _classes()
-    servertype = "multiplex" if variant == "multiplex" else "thread"
+    servertype = "multiplex" if variant.startswith("multiplex") else "thread"
     scope = None
     if variant == "thread-poolfull":
         scope = live.ConfigScope(THREADPOOL_SIZE=1, THREADPOOL_SIZE_MIN=1)
+        scope.__enter__()
+    if variant.endswith("-timeout"):
+        scope = live.ConfigScope(COMMTIMEOUT=STALL_TIMEOUT)
         scope.__enter__()
     scope2 = live.ConfigScope(MAX_MESSAGE_SIZE=256 * 1024)
     scope2.__enter__()
@@ -257,6 +276,15 @@ def run_case(case, variant=None, keep=False):
     first = case["first"]
     raw, wellformed, complete, ser_known = build_first(first)
     val = case["validator"]
+    stalled = False
+    if case.get("stall_after") and variant.endswith("-timeout") and len(raw) > 1:
+        # only a proper prefix of the first message arrives, then silence on an open connection
+        raw = raw[:1 + (case["stall_after"] - 1) % (len(raw) - 1)]
+        complete = wellformed = False
+        stalled = True
+    from Pyro5 import config as _config
+    old_logwire = _config.LOGWIRE
+    _config.LOGWIRE = bool(case.get("logwire"))      # the wire-log debugging switch must not change what a refused peer is told
 
     def validator(conn, data):
         if val["mode"] == "accept":
@@ -296,7 +324,7 @@ def run_case(case, variant=None, keep=False):
     peer = live.RawPeer(S.address())
     # a refused peer that keeps its socket OPEN (sends nothing more, does not hang up): the daemon must close the connection and
     # let go of it on its own.  Only when the first message is complete as sent (otherwise the daemon rightly waits for the rest).
-    lingering = bool(case.get("keep_open")) and not accepted and complete and first["mal"] not in ("dlen+", "alen+", "oversize")
+    lingering = (bool(case.get("keep_open")) and not accepted and complete and first["mal"] not in ("dlen+", "alen+", "oversize")) or stalled
     try:
         peer.send(raw + pipe)
         if not lingering:
@@ -321,6 +349,7 @@ def run_case(case, variant=None, keep=False):
                     probe.close()
     finally:
         peer.close()
+        _config.LOGWIRE = old_logwire
     # the server must have let go of the connection
     if not live.wait_for(lambda: S.busy_workers() == L["baseline"], 30):
         viol("connection-not-released", "worker/selector slot still occupied after the peer closed (busy=%d baseline=%d)" % (S.busy_workers(), L["baseline"]))
@@ -336,7 +365,7 @@ def run_case(case, variant=None, keep=False):
             viol("result-after-failed-handshake", "RESULT message sent on a connection whose handshake failed: types %r" % types)
         if ended[0] not in ("eof", "reset"):
             viol("not-closed", "connection not closed after failed handshake: %r" % (ended,))
-        need_fail = complete and ser_known
+        need_fail = (complete and ser_known) or stalled      # (a stalled message is answered in the default serializer: its header was not accepted)
         if val["mode"] == "raise" and val.get("exc") == "ConnectionClosedError" and wellformed and variant != "thread-poolfull":
             need_fail = need_fail       # (kept: the statement demands the reason also here)
         if need_fail:
@@ -345,6 +374,8 @@ def run_case(case, variant=None, keep=False):
                     pass        # reset swallowed the reply (tolerated only with pipelined bytes)
                 else:
                     feat = "validator-raises-" + val["exc"] if (val["mode"] == "raise" and wellformed and variant != "thread-poolfull") else "first-message"
+                    if stalled:
+                        feat = "stalled-first-message"
                     viol("no-connectfail:" + feat, "no CONNECTFAIL as first reply (%s): got types %r, ended %r" % (_why(first, val, variant, wellformed), types, ended))
             else:
                 try:
@@ -421,6 +452,10 @@ def _labels(case):
     l = ["first:" + case["first"]["kind"], "validator:" + case["validator"]["mode"], "accepted" if accepted else "must-fail"]
     if case["first"]["mal"]:
         l.append("malformed:" + case["first"]["mal"])
+    if case.get("logwire"):
+        l.append("config:LOGWIRE")
+    if case.get("stall_after"):
+        l.append("first-message-stalls-after-a-proper-prefix")
     if not accepted and case["pipeline"]:
         l.append("must-fail+pipelined")
     if case.get("keep_open") and not accepted and complete and case["first"]["mal"] not in ("dlen+", "alen+", "oversize"):
@@ -430,12 +465,16 @@ def _labels(case):
 
 def SHARDS(tier):
     base = [{"variant": "thread"}, {"variant": "multiplex"}, {"variant": "thread-poolfull"}]
-    return base * (2 if tier == "quick" else 5)
+    return base * (2 if tier == "quick" else 5) + [{"variant": "thread-timeout"}, {"variant": "multiplex-timeout"}] * (1 if tier == "quick" else 3)
 
 
 def run(ctx):
     variant = ctx.shard.get("variant", "thread")
     try:
+        if variant.endswith("-timeout"):
+            ctx.search(stalled_case_strategy(), lambda c: run_case(c, variant, keep=True), ctx.n(45, 400), nontrivial=lambda c: bool(c.get("stall_after")) or _nontrivial(c),
+                       labels=_labels, name="handshake" + variant, max_rounds=2, shrink_budget_s=20)
+            return
         ctx.search(case_strategy(), lambda c: run_case(c, variant, keep=True), ctx.n(800, 5000), nontrivial=_nontrivial, labels=_labels,
                    name="handshake" + variant, max_rounds=8)
     finally:
